@@ -78,6 +78,15 @@ def obs_c(T, slot, expr):
     raise ValueError(T)
 
 
+def co(x):
+    """C expression of driver object slot x (int literal or expression text)."""
+    return "obj[%d]" % x if isinstance(x, int) else "obj[%s]" % x
+
+
+def fo(x):
+    return "obj(%d)" % (x + 1) if isinstance(x, int) else "obj(%s + 1)" % x
+
+
 def c_scope(lib, f):
     """{C_name_scope}: class name for members (documented)."""
     return (f["cls"] + "_") if f.get("cls") and f["kind"] in ("ctor", "method", "smethod") else ""
@@ -89,6 +98,83 @@ def c_fname(lib, f):
     if suf is None and f["kind"] == "ctor" and f.get("noverload", 1) > 1:
         suf = "_%d" % f["overload_index"]          # documented default: sequence number
     return PREFIX + c_scope(lib, f) + base + (suf or "")
+
+
+def c_op_lines(lib, op):
+    """C statements performing one operation of the plan (without the call-site marker)."""
+    out = []
+    if op["kind"] == "del":
+        out.append("    %s%s_dtor(&%s);" % (PREFIX, op["cls"], co(op["obj"])))
+        return out
+    f = op["f"]
+    call = f["calls"][op["k"]]
+    ins, outs = call["inputs"], call["outputs"]
+    decl, args, post = [], [], []
+    if op["kind"] == "mcall":
+        args.append("&" + co(op["obj"]))
+    for idx, p in enumerate(f["params"]):
+        row, T, nm = p["row"], p["T"], p["name"]
+        v = "v%d" % idx
+        if row in ("K1ptr", "K1ref"):
+            args.append("&" + co(op["objs"][nm]))
+        elif p.get("implied_of"):
+            args.append("%d" % len(ins[p["implied_of"]]))     # the C API shows implied arguments
+        elif p.get("size_for") or row in ("N1", "B1", "S1c"):
+            args.append(xlib.c_lit(T, ins[nm]))
+        elif row == "N2in":
+            decl.append("%s %s = %s;" % (T, v, xlib.c_lit(T, ins[nm])))
+            args.append("&" + v)
+        elif row in ("N2out", "N2refout", "B1out"):
+            decl.append("%s %s = %s;" % (T, v, "0"))
+            args.append("&" + v)
+            post.append(obs_c(T, idx, v))
+        elif row in ("N2inout", "N2ref", "B1inout"):
+            decl.append("%s %s = %s;" % (T, v, xlib.c_lit(T, ins[nm])))
+            args.append("&" + v)
+            post.append(obs_c(T, idx, v))
+        elif row in ("S1in", "S3in"):
+            args.append(xlib.c_str(ins[nm]["text"]))
+        elif row == "S3val":
+            decl.append("char %s[64] = %s;" % (v, xlib.c_str(ins[nm]["text"])))
+            args.append(v)
+        elif row in ("S1out", "S3out"):
+            decl.append("char %s[64]; memset(%s, '#', 63); %s[63] = 0;" % (v, v, v))
+            args.append(v)
+            post.append("vf_os(%d, %s, -1);" % (idx, v))
+        elif row == "S3inout":
+            decl.append("char %s[64] = %s;" % (v, xlib.c_str(ins[nm]["text"])))
+            args.append(v)
+            post.append("vf_os(%d, %s, -1);" % (idx, v))
+        elif row in ("N3in", "N3inout"):
+            vals = ins[nm]
+            decl.append("%s %s[8] = {%s};" % (T, v, ", ".join(xlib.c_lit(T, x) for x in vals) or "0"))
+            args.append(v)
+            if row == "N3inout":
+                post.append(obs_arr_c(T, idx, v, len(vals)))
+        elif row == "N3out":
+            decl.append("%s %s[8] = {0};" % (T, v))
+            args.append(v)
+            post.append(obs_arr_c(T, idx, v, len(outs[nm])))
+    if op["kind"] in ("new", "make"):
+        args.append("&" + co(op["obj"]))        # the capsule the wrapper fills in
+    callx = "%s(%s)" % (c_fname(lib, f), ", ".join(args))
+    r = f["ret"]
+    out.append("    {")
+    out += ["        " + d for d in decl]
+    if op["kind"] == "make":
+        out.append("        %s;" % callx)
+        out.append("        vf_oo_%s(-1, %s.addr);" % (op["cls"], co(op["obj"])))
+    elif r is None:
+        out.append("        %s;" % callx)
+    elif r["row"] in ("N", "B", "C"):
+        out.append("        %s rv = %s;" % (r["T"], callx))
+        out.append("        " + obs_c(r["T"], -1, "rv"))
+    else:
+        out.append("        const char *rv = %s;" % callx)
+        out.append("        vf_os(-1, rv, -1);")
+    out += ["        " + x for x in post]
+    out.append("    }")
+    return out
 
 
 def c_driver(lib):
@@ -103,77 +189,7 @@ def c_driver(lib):
         out.append("    %s%s obj[%d];" % (PREFIX, c["name"], max(1, nobj)))
     for site, op in enumerate(xlib.plan(lib)):
         out.append("    vf_callsite(%d);" % site)
-        if op["kind"] == "del":
-            out.append("    %s%s_dtor(&obj[%d]);" % (PREFIX, op["cls"], op["obj"]))
-            continue
-        f = op["f"]
-        call = f["calls"][op["k"]]
-        ins, outs = call["inputs"], call["outputs"]
-        decl, args, post = [], [], []
-        if op["kind"] == "mcall":
-            args.append("&obj[%d]" % op["obj"])
-        for idx, p in enumerate(f["params"]):
-            row, T, nm = p["row"], p["T"], p["name"]
-            v = "v%d" % idx
-            if row in ("K1ptr", "K1ref"):
-                args.append("&obj[%d]" % op["objs"][nm])
-            elif p.get("implied_of"):
-                args.append("%d" % len(ins[p["implied_of"]]))     # the C API shows implied arguments
-            elif p.get("size_for") or row in ("N1", "B1", "S1c"):
-                args.append(xlib.c_lit(T, ins[nm]))
-            elif row == "N2in":
-                decl.append("%s %s = %s;" % (T, v, xlib.c_lit(T, ins[nm])))
-                args.append("&" + v)
-            elif row in ("N2out", "N2refout", "B1out"):
-                decl.append("%s %s = %s;" % (T, v, "0"))
-                args.append("&" + v)
-                post.append(obs_c(T, idx, v))
-            elif row in ("N2inout", "N2ref", "B1inout"):
-                decl.append("%s %s = %s;" % (T, v, xlib.c_lit(T, ins[nm])))
-                args.append("&" + v)
-                post.append(obs_c(T, idx, v))
-            elif row in ("S1in", "S3in"):
-                args.append(xlib.c_str(ins[nm]["text"]))
-            elif row == "S3val":
-                decl.append("char %s[64] = %s;" % (v, xlib.c_str(ins[nm]["text"])))
-                args.append(v)
-            elif row in ("S1out", "S3out"):
-                decl.append("char %s[64]; memset(%s, '#', 63); %s[63] = 0;" % (v, v, v))
-                args.append(v)
-                post.append("vf_os(%d, %s, -1);" % (idx, v))
-            elif row == "S3inout":
-                decl.append("char %s[64] = %s;" % (v, xlib.c_str(ins[nm]["text"])))
-                args.append(v)
-                post.append("vf_os(%d, %s, -1);" % (idx, v))
-            elif row in ("N3in", "N3inout"):
-                vals = ins[nm]
-                decl.append("%s %s[8] = {%s};" % (T, v, ", ".join(xlib.c_lit(T, x) for x in vals) or "0"))
-                args.append(v)
-                if row == "N3inout":
-                    post.append(obs_arr_c(T, idx, v, len(vals)))
-            elif row == "N3out":
-                decl.append("%s %s[8] = {0};" % (T, v))
-                args.append(v)
-                post.append(obs_arr_c(T, idx, v, len(outs[nm])))
-        if op["kind"] in ("new", "make"):
-            args.append("&obj[%d]" % op["obj"])        # the capsule the wrapper fills in
-        callx = "%s(%s)" % (c_fname(lib, f), ", ".join(args))
-        r = f["ret"]
-        out.append("    {")
-        out += ["        " + d for d in decl]
-        if op["kind"] == "make":
-            out.append("        %s;" % callx)
-            out.append("        vf_oo_%s(-1, obj[%d].addr);" % (op["cls"], op["obj"]))
-        elif r is None:
-            out.append("        %s;" % callx)
-        elif r["row"] in ("N", "B", "C"):
-            out.append("        %s rv = %s;" % (r["T"], callx))
-            out.append("        " + obs_c(r["T"], -1, "rv"))
-        else:
-            out.append("        const char *rv = %s;" % callx)
-            out.append("        vf_os(-1, rv, -1);")
-        out += ["        " + x for x in post]
-        out.append("    }")
+        out += c_op_lines(lib, op)
     out += ["    vf_live_report();", "    return 0;", "}"]
     return "\n".join(out) + "\n"
 
@@ -252,6 +268,98 @@ def f_procname(lib, f):
     return (un_camel(f["name"]) + (suf or "")).lower()
 
 
+def f_op_lines(lib, op):
+    """Fortran statements performing one operation of the plan."""
+    body = []
+    if op["kind"] == "del":
+        body.append("  call %s%%dtor()" % fo(op["obj"]))
+        return body
+    f = op["f"]
+    call = f["calls"][op["k"]]
+    ins, outs = call["inputs"], call["outputs"]
+    decl, pre, args, post = [], [], [], []
+    for idx, p in enumerate(f["params"]):
+        row, T, nm = p["row"], p["T"], p["name"]
+        v = "v%d" % idx
+        if p.get("implied_of"):
+            continue                      # implied arguments are not part of the Fortran API
+        if row in ("K1ptr", "K1ref"):
+            args.append(fo(op["objs"][nm]))
+        elif p.get("size_for") or row in ("N1", "N2in", "B1"):
+            args.append(f_lit(T, ins[nm]))
+        elif row == "S1c":
+            args.append(f_lit("char", ins[nm]))
+        elif row in ("N2out", "N2refout", "B1out"):
+            decl.append("%s :: %s" % (f_decl(T), v))
+            args.append(v)
+            post.append(obs_f(T, idx, v))
+        elif row in ("N2inout", "N2ref", "B1inout"):
+            decl.append("%s :: %s" % (f_decl(T), v))
+            pre.append("%s = %s" % (v, f_lit(T, ins[nm])))
+            args.append(v)
+            post.append(obs_f(T, idx, v))
+        elif row in ("S1in", "S3in", "S3val"):
+            decl.append("character(len=%d) :: %s" % (ins[nm]["flen"], v))
+            pre.append("%s(:) = %s" % (v, f_str(ins[nm]["text"])))
+            args.append(v)
+        elif row in ("S1out", "S3out"):
+            decl.append("character(len=%d) :: %s" % (outs[nm]["flen"], v))
+            pre.append("%s(:) = repeat('#', %d)" % (v, outs[nm]["flen"]))
+            args.append(v)
+            post.append("call vf_os(%d, %s, len(%s, kind=C_INT))" % (idx, v, v))
+        elif row == "S3inout":
+            decl.append("character(len=%d) :: %s" % (ins[nm]["flen"], v))
+            pre.append("%s(:) = %s" % (v, f_str(ins[nm]["text"])))
+            args.append(v)
+            post.append("call vf_os(%d, %s, len(%s, kind=C_INT))" % (idx, v, v))
+        elif row in ("N3in", "N3inout"):
+            vals = ins[nm]
+            decl.append("%s :: %s(%d)" % (f_decl(T), v, len(vals)))
+            if vals:
+                pre.append("%s = [%s]" % (v, ", ".join(f_lit(T, x) for x in vals)))
+            args.append(v)
+            if row == "N3inout":
+                post.append(obs_arr_f(T, idx, v))
+        elif row == "N3out":
+            decl.append("%s :: %s(%d)" % (f_decl(T), v, len(outs[nm])))
+            args.append(v)
+            post.append(obs_arr_f(T, idx, v))
+    r = f["ret"]
+    if op["kind"] == "new":
+        # documented: generic interface named after the derived type
+        callx = "%s(%s)" % (op["cls"].lower(), ", ".join(args))
+        stmt = "%s = %s" % (fo(op["obj"]), callx)
+    elif op["kind"] == "make":
+        stmt = "%s = %s(%s)" % (fo(op["obj"]), f_procname(lib, f), ", ".join(args))
+        post.insert(0, "call vf_oo_%s(-1_C_INT, %s%%get_instance())" % (op["cls"].lower(), fo(op["obj"])))
+    else:
+        if op["kind"] == "mcall":
+            target = "%s%%%s" % (fo(op["obj"]), f_procname(lib, f))
+        elif f["kind"] == "smethod":
+            target = "obj(1)%%%s" % f_procname(lib, f)        # nopass type-bound procedure
+        else:
+            target = f_procname(lib, f)
+        callx = "%s(%s)" % (target, ", ".join(args))
+        stmt = ("rv = " + callx) if r is not None else ("call " + callx)
+    body.append("  block")
+    if r is not None and op["kind"] not in ("new", "make"):
+        if r["row"] in ("N", "B", "C"):
+            decl.append("%s :: rv" % f_decl(r["T"]))
+            post.insert(0, obs_f(r["T"], -1, "rv"))
+        elif r["row"] in ("S1len", "S3len"):
+            decl.append("character(len=%d) :: rv" % r["flen"])
+            post.insert(0, "call vf_os(-1, rv, len(rv, kind=C_INT))")
+        else:
+            decl.append("character(len=:), allocatable :: rv")
+            post.insert(0, "call vf_os(-1, rv, len(rv, kind=C_INT))")
+    body += ["    " + d for d in decl]
+    body += ["    " + x for x in pre]
+    body.append("    " + stmt)
+    body += ["    " + x for x in post]
+    body.append("  end block")
+    return body
+
+
 def f_driver(lib):
     body = []
     nobj = sum(1 for op in xlib.plan(lib) if op["kind"] in ("new", "make"))
@@ -260,92 +368,7 @@ def f_driver(lib):
         head_decl.append("  type(%s) :: obj(%d)" % (c["name"].lower(), max(1, nobj)))
     for site, op in enumerate(xlib.plan(lib)):
         body.append("  call vf_callsite(%d)" % site)
-        if op["kind"] == "del":
-            body.append("  call obj(%d)%%dtor()" % (op["obj"] + 1))
-            continue
-        f = op["f"]
-        call = f["calls"][op["k"]]
-        ins, outs = call["inputs"], call["outputs"]
-        decl, pre, args, post = [], [], [], []
-        for idx, p in enumerate(f["params"]):
-            row, T, nm = p["row"], p["T"], p["name"]
-            v = "v%d" % idx
-            if p.get("implied_of"):
-                continue                      # implied arguments are not part of the Fortran API
-            if row in ("K1ptr", "K1ref"):
-                args.append("obj(%d)" % (op["objs"][nm] + 1))
-            elif p.get("size_for") or row in ("N1", "N2in", "B1"):
-                args.append(f_lit(T, ins[nm]))
-            elif row == "S1c":
-                args.append(f_lit("char", ins[nm]))
-            elif row in ("N2out", "N2refout", "B1out"):
-                decl.append("%s :: %s" % (f_decl(T), v))
-                args.append(v)
-                post.append(obs_f(T, idx, v))
-            elif row in ("N2inout", "N2ref", "B1inout"):
-                decl.append("%s :: %s" % (f_decl(T), v))
-                pre.append("%s = %s" % (v, f_lit(T, ins[nm])))
-                args.append(v)
-                post.append(obs_f(T, idx, v))
-            elif row in ("S1in", "S3in", "S3val"):
-                decl.append("character(len=%d) :: %s" % (ins[nm]["flen"], v))
-                pre.append("%s(:) = %s" % (v, f_str(ins[nm]["text"])))
-                args.append(v)
-            elif row in ("S1out", "S3out"):
-                decl.append("character(len=%d) :: %s" % (outs[nm]["flen"], v))
-                pre.append("%s(:) = repeat('#', %d)" % (v, outs[nm]["flen"]))
-                args.append(v)
-                post.append("call vf_os(%d, %s, len(%s, kind=C_INT))" % (idx, v, v))
-            elif row == "S3inout":
-                decl.append("character(len=%d) :: %s" % (ins[nm]["flen"], v))
-                pre.append("%s(:) = %s" % (v, f_str(ins[nm]["text"])))
-                args.append(v)
-                post.append("call vf_os(%d, %s, len(%s, kind=C_INT))" % (idx, v, v))
-            elif row in ("N3in", "N3inout"):
-                vals = ins[nm]
-                decl.append("%s :: %s(%d)" % (f_decl(T), v, len(vals)))
-                if vals:
-                    pre.append("%s = [%s]" % (v, ", ".join(f_lit(T, x) for x in vals)))
-                args.append(v)
-                if row == "N3inout":
-                    post.append(obs_arr_f(T, idx, v))
-            elif row == "N3out":
-                decl.append("%s :: %s(%d)" % (f_decl(T), v, len(outs[nm])))
-                args.append(v)
-                post.append(obs_arr_f(T, idx, v))
-        r = f["ret"]
-        if op["kind"] == "new":
-            # documented: generic interface named after the derived type
-            callx = "%s(%s)" % (op["cls"].lower(), ", ".join(args))
-            stmt = "obj(%d) = %s" % (op["obj"] + 1, callx)
-        elif op["kind"] == "make":
-            stmt = "obj(%d) = %s(%s)" % (op["obj"] + 1, f_procname(lib, f), ", ".join(args))
-            post.insert(0, "call vf_oo_%s(-1_C_INT, obj(%d)%%get_instance())" % (op["cls"].lower(), op["obj"] + 1))
-        else:
-            if op["kind"] == "mcall":
-                target = "obj(%d)%%%s" % (op["obj"] + 1, f_procname(lib, f))
-            elif f["kind"] == "smethod":
-                target = "obj(1)%%%s" % f_procname(lib, f)        # nopass type-bound procedure
-            else:
-                target = f_procname(lib, f)
-            callx = "%s(%s)" % (target, ", ".join(args))
-            stmt = ("rv = " + callx) if r is not None else ("call " + callx)
-        body.append("  block")
-        if r is not None and op["kind"] not in ("new", "make"):
-            if r["row"] in ("N", "B", "C"):
-                decl.append("%s :: rv" % f_decl(r["T"]))
-                post.insert(0, obs_f(r["T"], -1, "rv"))
-            elif r["row"] in ("S1len", "S3len"):
-                decl.append("character(len=%d) :: rv" % r["flen"])
-                post.insert(0, "call vf_os(-1, rv, len(rv, kind=C_INT))")
-            else:
-                decl.append("character(len=:), allocatable :: rv")
-                post.insert(0, "call vf_os(-1, rv, len(rv, kind=C_INT))")
-        body += ["    " + d for d in decl]
-        body += ["    " + x for x in pre]
-        body.append("    " + stmt)
-        body += ["    " + x for x in post]
-        body.append("  end block")
+        body += f_op_lines(lib, op)
     body.append("  call vf_live_report()")
     src = ["subroutine vf_run()", "  use iso_c_binding", "  use vf_mod", "  use %s_mod" % lib["name"].lower(), "  implicit none"]
     src += ["  interface", "    subroutine vf_live_report() bind(C, name=\"vf_live_report\")", "    end subroutine"]
@@ -380,7 +403,7 @@ def run_cmd(cmd, cwd, timeout=300, env=None):
     return cp.returncode, cp.stdout, cp.stderr
 
 
-def build_and_run(work, lib, gen_files, front, asan=False):
+def build_and_run(work, lib, gen_files, front, asan=False, run=True):
     """work: directory holding the generated wrapper files (gen_files = their names).
     Returns dict(stage, detail, stream)."""
     srcs = xlib.subject_sources(lib)
@@ -440,6 +463,8 @@ def build_and_run(work, lib, gen_files, front, asan=False):
     rc, so, se = run_cmd(link, work)
     if rc != 0:
         return dict(stage="link", detail=(se or so)[-1500:], stream=[])
+    if not run:
+        return dict(stage="built", detail="", stream=[])
     env = dict(os.environ)
     if asan:
         env["ASAN_OPTIONS"] = "detect_leaks=1:halt_on_error=1"
